@@ -14,6 +14,36 @@ class CannotEncode(Exception):
     pass
 
 
+def _match_brace(src, j, what):
+    """src[j-1] is an opening brace; return the index of its matching `}`."""
+    assert src[j - 1] == "{"
+    depth = 1
+    k = j
+    while k < len(src):
+        c = src[k]
+        if c == "'":
+            m = re.match(r"'(\\.|[^\\'])'", src[k:])
+            if m:
+                k += m.end()
+                continue
+        if c == '"':
+            m = re.match(r'"(\\.|[^\\"])*"', src[k:])
+            if m:
+                k += m.end()
+                continue
+        if c == "/" and src[k:k + 2] == "//":
+            k = src.find("\n", k)
+            continue
+        if c == "{":
+            depth += 1
+        elif c == "}":
+            depth -= 1
+            if depth == 0:
+                return k
+        k += 1
+    raise CannotEncode("unbalanced braces after anchor for %s" % what)
+
+
 def _block_after(src, header, what):
     """Return the text between the `{` that ends `header` and its matching `}`."""
     i = src.find(header)
@@ -85,13 +115,82 @@ impl<const N: usize> BVec<N> {
         self.a[..self.n].iter()
     }
 }
+
+/// Small association list standing in for HashMap<usize, usize> inside slices.
+#[derive(Clone, Copy)]
+pub(crate) struct BMap {
+    pub k: [usize; 8],
+    pub v: [usize; 8],
+    pub n: usize,
+}
+impl BMap {
+    pub fn new() -> Self {
+        BMap { k: [0; 8], v: [0; 8], n: 0 }
+    }
+    pub fn insert(&mut self, key: usize, val: usize) -> Option<usize> {
+        let mut i = 0;
+        while i < self.n {
+            if self.k[i] == key {
+                let old = self.v[i];
+                self.v[i] = val;
+                return Some(old);
+            }
+            i += 1;
+        }
+        kani::assert(self.n < 8, "standin BMap capacity exceeded");
+        self.k[self.n] = key;
+        self.v[self.n] = val;
+        self.n += 1;
+        None
+    }
+    pub fn get(&self, key: &usize) -> Option<&usize> {
+        let mut i = 0;
+        while i < self.n {
+            if self.k[i] == *key {
+                return Some(&self.v[i]);
+            }
+            i += 1;
+        }
+        None
+    }
+    pub fn len(&self) -> usize {
+        self.n
+    }
+}
+
+/// Fixed-capacity stand-in for `vec![x; n]` inside slices; an out-of-range
+/// index is reported as a failure of the code under test.
+#[derive(Clone, Copy)]
+pub(crate) struct BArr<T: Copy> {
+    pub a: [T; 8],
+    pub n: usize,
+}
+impl<T: Copy> BArr<T> {
+    pub fn filled(x: T, n: usize) -> Self {
+        kani::assert(n <= 8, "standin BArr capacity exceeded");
+        BArr { a: [x; 8], n }
+    }
+}
+impl<T: Copy> std::ops::Index<usize> for BArr<T> {
+    type Output = T;
+    fn index(&self, i: usize) -> &T {
+        kani::assert(i < self.n, "C05.slice.index out of bounds (stand-in for Vec indexing)");
+        &self.a[i]
+    }
+}
+impl<T: Copy> std::ops::IndexMut<usize> for BArr<T> {
+    fn index_mut(&mut self, i: usize) -> &mut T {
+        kani::assert(i < self.n, "C05.slice.index out of bounds (stand-in for Vec indexing)");
+        &mut self.a[i]
+    }
+}
 '''
 
 
 def generate(repo_dir):
     info = {"standins": ["BVec<N>: fixed-capacity array + length standing in for Vec<char> inside slices",
                          "slice_c14::View {pattern, len}: the two ReCompiler fields the stripper touches",
-                         "slice_c15::View {program.max_parens, get_paren(n)}: what the expansion loop reads of ReMatcher"],
+                         "slice_c15::View {program.max_parens, program.flags.is_literal(), get_paren(n)}: what the substitution step reads of ReMatcher", "slice_c15::{Error, Msg, format!, to_string}: error-message construction bound to a unit type (message text is never compared)"],
             "slices": {}}
     out = [STANDINS]
 
@@ -122,18 +221,68 @@ pub(crate) mod slice_c14 {
 }
 ''' % body)
 
-    # ---- C15: replacement expansion inside ReMatcher::replace -------------
+    # ---- C15/C13: per-match substitution logic inside ReMatcher::replace ----
     src = open(os.path.join(repo_dir, "regexml/src/re_matcher.rs"), encoding="utf-8").read()
-    body, line = _block_after(src, "if !simple_replacement {", "replacement expansion (C15)")
-    info["slices"]["c15_expand"] = {"file": "regexml/src/re_matcher.rs", "first_line": line,
-                                    "lines": body.count("\n"), "anchor": "if !simple_replacement {"}
+    ms = list(re.finditer(r"if first_match \{\s*simple_replacement\s*=", src))
+    if len(ms) != 1:
+        raise CannotEncode("anchor for replacement expansion (C15) not found exactly once: "
+                           "`if first_match { simple_replacement = ...`")
+    a = ms[0].start()
+    e1 = _match_brace(src, src.index("{", a) + 1, "C15 latch block")
+    m2 = re.match(r"\s*if !simple_replacement \{", src[e1 + 1:])
+    if not m2:
+        raise CannotEncode("`if !simple_replacement {` no longer follows the latch block in ReMatcher::replace")
+    e2 = _match_brace(src, e1 + 1 + m2.end(), "C15 expansion block")
+    m3 = re.match(r"\s*else \{", src[e2 + 1:])
+    if not m3:
+        raise CannotEncode("`else {` (verbatim substitution) no longer follows the expansion block")
+    e3 = _match_brace(src, e2 + 1 + m3.end(), "C15 verbatim block")
+    body = src[a:e3 + 1]
+    info["slices"]["c15_expand"] = {"file": "regexml/src/re_matcher.rs", "first_line": src.count("\n", 0, a) + 1,
+                                    "lines": body.count("\n") + 1,
+                                    "anchor": "if first_match { simple_replacement = ... } if !simple_replacement { ... } else { ... }"}
     out.append('''
 pub(crate) mod slice_c15 {
+    // Error messages are environment: `format!` and `"..".to_string()` are bound
+    // to a unit message type so that no String is built on the error paths.
+    #![no_implicit_prelude]
     #![allow(unused)]
     use super::BVec;
-    use crate::re_compiler::Error;
+    use ::core::option::Option::{self, None, Some};
+    use ::core::result::Result::{self, Err, Ok};
+    pub(crate) struct Msg;
+    pub(crate) trait ToMsg {
+        fn to_string(&self) -> Msg;
+    }
+    impl ToMsg for str {
+        fn to_string(&self) -> Msg {
+            Msg
+        }
+    }
+    impl ToMsg for Msg {
+        fn to_string(&self) -> Msg {
+            Msg
+        }
+    }
+    macro_rules! format {
+        ($($t:tt)*) => {
+            Msg
+        };
+    }
+    pub(crate) enum Error {
+        InvalidReplacementString(Msg),
+    }
+    pub(crate) struct Flags {
+        pub literal: bool,
+    }
+    impl Flags {
+        pub(crate) fn is_literal(&self) -> bool {
+            self.literal
+        }
+    }
     pub(crate) struct Prog {
         pub max_parens: Option<usize>,
+        pub flags: Flags,
     }
     pub(crate) struct View {
         pub program: Prog,
@@ -148,16 +297,52 @@ pub(crate) mod slice_c15 {
                 None
             }
         }
-        pub(crate) fn run(&self, replacement: &[char]) -> Result<(BVec<16>, bool), Error> {
-            let mut result: BVec<16> = BVec::new();
+        /// The substitution step of `replace`, executed once per match for
+        /// `n_matches` consecutive matches (the latch variables live across them).
+        pub(crate) fn run(&self, replacement: &[char], n_matches: usize) -> Result<(BVec<8>, bool), Error> {
+            let mut result: BVec<8> = BVec::new();
+            let mut first_match = true;
             let mut simple_replacement = false;
-            {
+            let mut k = 0;
+            while k < n_matches {
                 // ---- verbatim from re_matcher.rs (ReMatcher::replace) ----
 %s
                 // ---- end of verbatim block ----
+                k += 1;
             }
             Ok((result, simple_replacement))
         }
+    }
+}
+''' % body)
+
+    # ---- C13/C05: AnalyzeIter::compute_nesting_table (whole body) -----------
+    src = open(os.path.join(repo_dir, "regexml/src/analyze_string.rs"), encoding="utf-8").read()
+    ms = list(re.finditer(r"fn compute_nesting_table\([^)]*\)\s*->\s*HashMap<usize, usize>\s*\{", src))
+    if len(ms) != 1:
+        raise CannotEncode("anchor for compute_nesting_table not found exactly once")
+    b0 = ms[0].end()
+    b1 = _match_brace(src, b0, "compute_nesting_table")
+    body = src[b0:b1]
+    info["slices"]["c13_nesting"] = {"file": "regexml/src/analyze_string.rs", "first_line": src.count("\n", 0, b0) + 1,
+                                     "lines": body.count("\n") + 1, "anchor": "fn compute_nesting_table(..) -> HashMap<usize, usize> {"}
+    info["standins"].append("BArr<T>: 8-slot array standing in for `vec![x; n]` in the nesting-table slice (out-of-range index = failure of the code under test)")
+    info["standins"].append("BMap: 8-entry association list standing in for HashMap<usize, usize> in the nesting-table slice")
+    out.append('''
+pub(crate) mod slice_c13 {
+    #![allow(unused)]
+    use super::{BArr, BMap};
+    #[allow(non_camel_case_types)]
+    type HashMap = BMap;
+    macro_rules! vec {
+        ($e:expr; $n:expr) => {
+            BArr::filled($e, $n)
+        };
+    }
+    pub(crate) fn run(pattern: &[char]) -> BMap {
+        // ---- verbatim body of AnalyzeIter::compute_nesting_table ----
+%s
+        // ---- end of verbatim block ----
     }
 }
 ''' % body)
